@@ -358,3 +358,10 @@ Proof.
   destruct (step s l) as [s1|] eqn:Hs; [|discriminate].
   pose proof (internal_step_decreases s l s1 Hs Hi). specialize (IH s1 s' Hf Hr). lia.
 Qed.
+
+(* the same for the ids on the wire, whatever (possibly repeating) ids the requests carry *)
+Theorem quiescent_ids_any_assignment : forall (A : Type) (rid : nat -> A) tr s, run init tr = Some s -> quiescent s = true ->
+  map rid (emitted s) = map rid (seq 1 (arrived s)).
+Proof.
+  intros A rid tr s H Hq. f_equal. exact (quiescent_complete tr s H Hq).
+Qed.
